@@ -32,6 +32,9 @@ def run(ctx):
     ctx.shared(_c02.pair_and_kinds, ctx, am)   # the batch connect of populate_connections is mirrored on both directed links
     ctx.shared(_c10.typecase, ctx, ['xtuml.meta'], 'C10-TYPECASE')   # _is_null decides which referential values count as null
     ctx.shared(_c10.access, ctx)      # the loader reads key values through Class.__getattr__ (raw stored value first, declared cell otherwise)
+    ctx.shared(_c10.normalise, ctx)   # column names of a named INSERT are matched to the declared attributes whatever their case
+    from . import c09 as _c09
+    ctx.shared(_c09.where_filter, ctx)   # MetaClass.new finds the referred instances with the equality filter
     ctx.assume('equality of the hash join with the relational join for all value types (== / hash agreement) is not decided')
     return ('Ordering and once-only rules on ModelLoader.populate; isinstance partition of the statement classes vs the grammar '
             'actions; call-graph funnel of all input routes into ModelLoader.input; sibling agreement of compute_lookup_key / '
